@@ -16,6 +16,10 @@ pub struct Corruption {
     pub add_fresh: Vec<(Vec<u8>, u64, Vec<u8>)>,
     /// write value states with this version jump instead of +1 (version skipping): label -> new version
     pub force_version: HashMap<Vec<u8>, u64>,
+    /// additionally insert these elements verbatim (arbitrary node labels, any bit length)
+    pub raw: Vec<AzksElement>,
+    /// do not insert the fresh leaf of these labels (their value state is still written)
+    pub omit_fresh_for: Vec<Vec<u8>>,
 }
 
 /// Publish `updates` like Directory::publish does, applying `c`.  Returns the new epoch hash.
@@ -56,7 +60,9 @@ pub async fn publish<TC: Configuration, D: Database + 'static>(
             }
         }
         let fl = vrf.get_node_label::<TC>(&al, VersionFreshness::Fresh, newv).await?;
-        set.push(AzksElement { label: fl, value: TC::compute_fresh_azks_value(&ck, &fl, newv, &av) });
+        if !c.omit_fresh_for.contains(l) {
+            set.push(AzksElement { label: fl, value: TC::compute_fresh_azks_value(&ck, &fl, newv, &av) });
+        }
         states.push(DbRecord::ValueState(ValueState { value: av, version: newv, label: fl, epoch: next, username: al }));
     }
     for (l, ver) in &c.add_stale {
@@ -67,6 +73,7 @@ pub async fn publish<TC: Configuration, D: Database + 'static>(
         let fl = vrf.get_node_label::<TC>(&AkdLabel(l.clone()), VersionFreshness::Fresh, *ver).await?;
         set.push(AzksElement { label: fl, value: TC::compute_fresh_azks_value(&ck, &fl, *ver, &AkdValue(val.clone())) });
     }
+    set.extend(c.raw.iter().cloned());
     if set.is_empty() {
         let root = azks.get_root_hash::<TC, _>(mgr).await?;
         return Ok(EpochHash(cur, root));
